@@ -179,10 +179,13 @@ EvLoop(nd, st, d, C, it, lvv) ==
                 [] OTHER -> TRUE
     IN IF st.err # "-" \/ ~go THEN st
        ELSE
-         LET s0 == IF nd.lv # "-" THEN [st EXCEPT !.sc = SetTop(@, nd.lv, lvv)] ELSE st
+         \* <for idx-var=..> (nd.rd names the index variable) also binds the 0-based index
+         LET sA == IF nd.lv # "-" THEN [st EXCEPT !.sc = SetTop(@, nd.lv, lvv)] ELSE st
+             s0 == IF nd.form = "for" /\ nd.rd # "-" THEN [sA EXCEPT !.sc = SetTop(@, nd.rd, it)] ELSE sA
              s1 == EvKids(nd, s0, d + 1, C)
              bind == IF nd.lv # "-"
-                     THEN <<[Node(0, "var") EXCEPT !.asg = <<<<nd.lv, Lit(lvv)>>>>]>>
+                     THEN <<[Node(0, "var") EXCEPT !.asg = <<<<nd.lv, Lit(lvv)>>>>
+                                 \o (IF nd.form = "for" /\ nd.rd # "-" THEN <<<<nd.rd, Lit(it)>>>> ELSE <<>>)]>>
                      ELSE <<>>
              s2 == [s1 EXCEPT !.unr = st.unr \o bind \o s1.unr]
              stop == nd.form = "until" /\ s2.err = "-" /\ EvalE(nd.cond, s2.sc) # 0
